@@ -546,3 +546,16 @@ def gen_world(rng, nobj=(2, 4), nops=(0, 5), weights=None, restartable=True, cel
         objs.append(ov)
         ops.insert(rng.randint(0, len(ops)), {"op": "extend", "obj": 0, "other": len(objs) - 1, "mode": "map_all"})
     return {"seed": rng.getrandbits(31), "cfg": cfg, "objects": objs, "ops": ops}
+
+
+def add_shifted_duplicate(fs, i, shift):
+    """Append a copy of atom i (same type, charge, group, extra fields) displaced by `shift` (e.g. exactly one cell vector:
+    a boundary atom listed on both opposite faces, as some CIFs do)."""
+    fs["positions"].append((np.array(fs["positions"][i], float) + np.array(shift, float)).tolist())
+    fs["atom_types"].append(fs["atom_types"][i])
+    for key in ("charges", "groups", "elements_arg"):
+        if fs.get(key):
+            fs[key].append(fs[key][i])
+    if fs.get("extra_atom_fields"):
+        fs["extra_atom_fields"].append(list(fs["extra_atom_fields"][i]))
+    return fs
